@@ -80,7 +80,21 @@ impl Monitor for C14 {
                         acc.violation(format!("c14:trade_enable_time_changed:{name}"), format!("oracle {}: trade_enable_timestamp {} -> {}, whirlpool {} -> {}", m.key, pre.trade_enable_timestamp, post.trade_enable_timestamp, pre.whirlpool, post.whirlpool), json!({"instruction": ix_brief(&obs.ix)}));
                     }
                     if name == "set_adaptive_fee_constants" {
+                        // every constant named in the instruction takes the new value, every omitted one keeps its old value
                         acc.count("constants_updates_checked");
+                        let mut r = codec::Rd::new(&obs.ix.data, 8);
+                        let mut o16 = |r: &mut codec::Rd| if r.u8() == 1 { Some(r.u16()) } else { None };
+                        let (f, d, red) = (o16(&mut r), o16(&mut r), o16(&mut r));
+                        let cf = if r.u8() == 1 { Some(r.u32()) } else { None };
+                        let mx = if r.u8() == 1 { Some(r.u32()) } else { None };
+                        let (gs, mj) = (o16(&mut r), o16(&mut r));
+                        let c0 = &pre.constants;
+                        let want = (f.unwrap_or(c0.filter_period), d.unwrap_or(c0.decay_period), red.unwrap_or(c0.reduction_factor), cf.unwrap_or(c0.adaptive_fee_control_factor), mx.unwrap_or(c0.max_volatility_accumulator), gs.unwrap_or(c0.tick_group_size), mj.unwrap_or(c0.major_swap_threshold_ticks));
+                        let c1 = &post.constants;
+                        let got = (c1.filter_period, c1.decay_period, c1.reduction_factor, c1.adaptive_fee_control_factor, c1.max_volatility_accumulator, c1.tick_group_size, c1.major_swap_threshold_ticks);
+                        if want != got {
+                            acc.violation(format!("c14:constants_update:{name}"), format!("requested (filter, decay, reduction, control, max accumulator, group size, major threshold) = ({f:?}, {d:?}, {red:?}, {cf:?}, {mx:?}, {gs:?}, {mj:?}) on {:?}: stored {:?}, expected {:?}", (c0.filter_period, c0.decay_period, c0.reduction_factor, c0.adaptive_fee_control_factor, c0.max_volatility_accumulator, c0.tick_group_size, c0.major_swap_threshold_ticks), got, want), json!({"instruction": ix_brief(&obs.ix)}));
+                        }
                     }
                 }
             }
